@@ -1229,6 +1229,21 @@ def scen_dict(S, rng, fam, p):
     dn = p.get("dn", rng.choice(DICT_SIZES))
     maxin = p.get("maxin", 70000)
     dict_bytes = make_block(rng, dn, b"", base)
+    # dictionaries larger than 64 KB: only the LAST 64 KB are the dictionary.  Trap for a loader that keeps the start of the
+    # buffer as its base: position q of the last 64 KB and position q of the buffer hold the same 8-byte key with different
+    # continuations; the input repeats key + the continuation stored at the START of the buffer.
+    traps = []
+    if dn > K64 + 64 and rng.random() < 0.7:
+        db = bytearray(dict_bytes); delta = dn - K64
+        for _ in range(10):
+            q = rng.randrange(0, K64 - 64)
+            if abs(delta) < 24 or (q < delta + q < q + 24):
+                continue
+            key, A, B = rng.randbytes(8), rng.randbytes(12), rng.randbytes(12)
+            db[q:q + 20] = key + B
+            db[delta + q:delta + q + 20] = key + A
+            traps.append(key + B)
+        dict_bytes = bytes(db)
     method = rng.choice(["load", "loadslow", "attach", "attach", "attachslow", "copy"]) if fam == "f" else rng.choice(["load", "attach", "attach"])
     st["dict_%s_%s" % (fam, method)] += 1
     st["dictsize_" + ("0-11" if dn < 12 else "<4K" if dn < 4096 else "<64K" if dn < K64 else "64K" if dn == K64 else ">64K")] += 1
@@ -1278,6 +1293,12 @@ def scen_dict(S, rng, fam, p):
         n = min(maxin, rng.choice(INPUT_SIZES_DICT))
         dec.maxblock = max(n, 16)
         src = dict_input(rng, n, dict_bytes, base)
+        if traps and n >= 64 and rng.random() < 0.8:
+            sb = bytearray(src)
+            for _ in range(rng.choice([1, 2, 4])):
+                t = rng.choice(traps); at = rng.randrange(0, n - len(t))
+                sb[at:at + len(t)] = t
+            src = bytes(sb)
         prefix_place = rng.random() < 0.4 and n <= room
         a = contig if prefix_place else sep + rng.randrange(0, 32)
         st["dict_first_block_" + ("contiguous" if prefix_place else "separate")] += 1
